@@ -77,11 +77,13 @@ CHECKS['C19'] = dict(
          'headings (ATX and setext, at any nesting depth) in document pre-order that pass the depth / omit_title / '
          'filter test, and the list lines handed to the tokenizer are indented by 4*(level-base). The model (incl. the '
          'tag-stripping regex) is tied to the real TocRenderer._headings on outline documents and arbitrary documents. '
-         'That the indented list lines parse to a list nested by level is a block-parser statement: explored on the '
-         'implementation against the generator outline (partial, named in the evidence).',
+         'Nesting: for every heading list that is an outline with plain titles the block phase on those lines returns '
+         'ONE list nested exactly as the outline (C19_toc_nested, for the token lists regenerated from /repo); the '
+         'conclusion is re-checked on the real TocRenderer.toc each run; titles with markup and non-outline lists are '
+         'explored on the implementation against the generator outline.',
     note='Trusted: Lean kernel (axioms propext/Classical.choice/Quot.sound at most); correspondence harness; filters are '
          'substring predicates. A document without qualifying headings is outside the claim.',
-    technique='Lean 4 proof (structural induction: collection = filtered pre-order of headings) + correspondence of _headings + outline-oracle exploration of toc nesting',
+    technique='Lean 4 proof (structural induction: collection = filtered pre-order of headings; mutual induction over the outline forest for the list parse) + correspondence of _headings + hypothesis evaluation with conclusion checked on the implementation + outline-oracle exploration',
     ref='DESIGN.md section 5, C19')
 
 CHECKS['C17'] = dict(
@@ -106,13 +108,16 @@ CHECKS['C10'] = dict(
          'reordered; only hard-break markers are consumed); the container budget arithmetic is stated outright, '
          'including the zero budget at which wrapping silently switched off. The models are tied to the real '
          'classmethods on generated fragment lists for L in None/0/negative/1..120 and to the budgets the real '
-         'renderer hands to nested blocks. Meaning preservation, round-trip idempotence and non-rebreaking of '
-         'code/HTML/table/ATX blocks are explored on the implementation over generated nested prose for L in 1..120 '
-         '(partial: no theorem yet).',
+         'renderer hands to nested blocks. On PARSED documents (Props/C10_Reflow.lean), for the plain-word prose '
+         'fragment: MarkdownRenderer(max_line_length=L).render(Document(text)) is the greedy re-fill of the same words, a '
+         'line longer than L is one word, the HTML is the same up to the position of soft breaks, and reflowing again '
+         'changes nothing - the conclusion is re-checked on the real renderer on random fragment documents each run. '
+         'Paragraphs inside containers, hard breaks, inline markup and the non-rebreaking of code/HTML/table/ATX blocks '
+         'are explored on the implementation over generated nested prose for L in 1..120.',
     note='Trusted: Lean kernel (axioms propext/Classical.choice/Quot.sound at most); correspondence harness; the '
          'generated prose avoids words that look like block markers at line start (the recorded finding named by the '
          'property).',
-    technique='Lean 4 proof (loop invariants of the greedy fill by induction over the word list) + correspondence of the real classmethods + four-clause exploration on nested documents',
+    technique='Lean 4 proof (loop invariants of the greedy fill by induction over the word list; renderer computation on the parsed prose fragment via C14/C09) + correspondence of the real classmethods + hypothesis evaluation with conclusion checked on the implementation + four-clause exploration on nested documents',
     ref='DESIGN.md section 5, C10')
 
 CHECKS['C11'] = dict(
@@ -170,12 +175,17 @@ CHECKS['C01'] = dict(
          'changes the result (termination of the dispatch loop, of every reader loop and of the recursion into '
          'containers). Document-level and inline-level totality theorems are listed in the evidence as they are '
          'added. The model is tied to the code by scanner-level, block-buffer-level and whole-document correspondence '
-         '(result or exception kind) on random, mutated, malformed, truncated and deeply nested inputs. The property '
-         'also quantifies over renderers that are not modelled (Markdown, Jira, XWiki, Pygments) and over wall-clock '
-         'time: that part is explored on the implementation under all configurations.',
+         '(result or exception kind) on random, mutated, malformed, truncated and deeply nested inputs. Renderers: '
+         'parse-and-render returns a string for every text with the HTML renderer, the Markdown renderer (every option '
+         'set), the Jira renderer and the XWiki renderer (Props/C01_Renderers.lean: no render-map KeyError, no IndexError '
+         'on empty containers, no TypeError; each renderer model raises on a tree exactly outside a decidable shape '
+         'predicate that every parsed document satisfies; XWiki partial: its macro tokens are not produced by the parser '
+         'model), the renderer models being tied to the real renderers byte for byte (md.render, jira.render, '
+         'xwiki.render units). Pygments and wall-clock time are not modelled: explored on the implementation under all '
+         'configurations.',
     note='Trusted: Lean kernel (axioms propext/Classical.choice/Quot.sound at most); correspondence harness; SIGALRM '
          'budget; Pygments exercised, not modelled; recursion limit represented by the gas bound.',
-    technique='Lean 4 proof (simultaneous induction over the gas of the mutually recursive tokenizer; weighted-length measure for termination) + correspondence + exploration of configurations on the implementation',
+    technique='Lean 4 proof (simultaneous induction over the gas of the mutually recursive tokenizer; weighted-length measure for termination; shape invariants of parsed trees for renderer totality) + correspondence (parser and renderer models) + exploration of configurations on the implementation',
     ref='DESIGN.md section 5, C01 and section 12')
 
 CHECKS['C06'] = dict(
